@@ -741,6 +741,80 @@ func checkClipSearch(c *Ctx) {
 			}
 		}
 		grow(d)
+		// counter form: the cut index is the scan counter itself (`for i+1 < len(r) { if dest(r[i]) { break }; i++ }; r[:i+1]`)
+		for cp := range web {
+			if len(cp.Edges) != 2 {
+				continue
+			}
+			loop := innermostLoop(f, cp.Block())
+			if loop == nil {
+				continue
+			}
+			stepped := false
+			for _, e := range cp.Edges {
+				if bo, ok := e.(*ssa.BinOp); ok && bo.Op == token.ADD && bo.X == ssa.Value(cp) {
+					if k, ok := bo.Y.(*ssa.Const); ok && k.Value != nil && k.Int64() == 1 {
+						stepped = true
+					}
+				}
+			}
+			isHeader := false
+			for _, pr := range cp.Block().Preds {
+				if !loop[pr] {
+					isHeader = true
+				}
+			}
+			if !stepped || !isHeader {
+				continue
+			}
+			key := fn + "#search[counter]"
+			nbreak := 0
+			okAll := true
+			why := ""
+			for b := range loop {
+				if b == cp.Block() {
+					continue
+				}
+				for si, sx := range b.Succs {
+					if loop[sx] {
+						continue
+					}
+					nbreak++
+					iff, ok := b.Instrs[len(b.Instrs)-1].(*ssa.If)
+					if !ok || si != 0 {
+						okAll, why = false, "the loop is left on something other than the true branch of a test"
+						continue
+					}
+					// the tested element: results[counter]
+					var elem ssa.Value
+					switch cnd := iff.Cond.(type) {
+					case *ssa.Call:
+						if g := cnd.Common().StaticCallee(); g != nil && isDestPred(g) && len(cnd.Common().Args) == 1 {
+							elem = cnd.Common().Args[0]
+						}
+					case *ssa.UnOp:
+						if fa, ok := cnd.X.(*ssa.FieldAddr); ok && core.FieldName(fa) == "IsDest" {
+							elem = fa.X
+						}
+					}
+					ld, _ := elem.(*ssa.UnOp)
+					if ld == nil {
+						okAll, why = false, "the test that leaves the loop is not `x != nil && x.IsDest` on an element"
+						continue
+					}
+					ia, _ := ld.X.(*ssa.IndexAddr)
+					if ia == nil || ia.Index != ssa.Value(cp) {
+						okAll, why = false, "the element tested before leaving is not the one at the counter's current value (the counter is stepped before the test): the element at the start index is never examined and the list can run past the lowest destination answer"
+					}
+				}
+			}
+			if nbreak == 0 {
+				R.Info("R03.6", key, at.Pos(), fn, "the counter scan has no early exit: not decided")
+			} else {
+				R.Check(okAll, "R03.6", key, at.Pos(), fn, "ascending counter scan: it stops at the first element that is a destination answer, tested at the counter's current value", "counter scan for the destination index: "+why)
+			}
+			return
+		}
 		type hit struct {
 			phi  *ssa.Phi
 			from *ssa.BasicBlock
